@@ -265,7 +265,7 @@ def run(ctx: Context, rep) -> None:
            message="no description is returned without passing the gate")
     mv = [c for c in load.calls() if isinstance(c.func, ast.Attribute) and
           c.func.attr == "model_validate_json"]
-    p0 = load.params()[0]
+    p0 = [p for p in load.params() if p not in ("self", "cls")][0]
 
     def names_the_param(mvc) -> bool:
         # _get_config_path(<p> | Path(<p>)) of the function's own parameter
